@@ -14,6 +14,11 @@ let to_zll = to_list to_zl
 let to_edges = to_list (to_pair to_z to_z)
 let variant x = match to_str x with
   | "as_is" -> false | "spec" -> true | s -> raise (Bad ("variant " ^ s))
+(* pitfall: (repaired shift, argument checks of commit cc7a963) *)
+let variant2 x = match to_str x with
+  | "as_is" -> (false, true) | "spec" -> (true, true)
+  | "as_is_unvalidated" -> (false, false) | "spec_unvalidated" -> (true, false)
+  | s -> raise (Bad ("variant " ^ s))
 
 let () =
   register "fam_op" (function [n; t; s; p; kn] -> reply (op_formula (to_z n) (to_bool t) (to_bool s) (to_bool p) (to_z kn)) | _ -> raise (Bad "arity"));
@@ -23,7 +28,8 @@ let () =
   register "fam_sstone" (function [d; b; r] -> reply (sstone_formula (to_zll d) (to_zll b) (to_z r)) | _ -> raise (Bad "arity"));
   register "fam_cpls" (function [a; b; c] -> reply (cpls_formula (to_z a) (to_z b) (to_z c)) | _ -> raise (Bad "arity"));
   register "fam_pitfall" (function [var; v; d; ny; nz; k; e] ->
-      reply (pitfall_formula (variant var) (to_z v) (to_z d) (to_z ny) (to_z nz) (to_z k) (to_edges e)) | _ -> raise (Bad "arity"));
+      let (fx, vl) = variant2 var in
+      reply (pitfall_formula fx vl (to_z v) (to_z d) (to_z ny) (to_z nz) (to_z k) (to_edges e)) | _ -> raise (Bad "arity"));
   register "fam_ram" (function [s; k; n] -> reply (ram_formula (to_z s) (to_z k) (to_z n)) | _ -> raise (Bad "arity"));
   register "fam_vdw" (function [var; n; ks] ->
       reply ((if variant var then vdw_spec_formula else vdw_formula) (to_z n) (to_zl ks)) | _ -> raise (Bad "arity"));
